@@ -192,8 +192,14 @@ class Impl:
                 t[(d, float(o.start))] = float(bv)
         self.ec.table = t
 
-    def evaluate(self):
-        quiet(self.sa.continue_adaptive_refinement, tol=-1, max_evaluations=0)
+    def evaluate(self, resume=False):
+        """one evaluation of the current structure; `resume=True`: through the documented resume path
+        `performSpatiallyAdaptiv(<same arguments>, refinement_container=<the old container>)`"""
+        if resume:
+            quiet(self.sa.performSpatiallyAdaptiv, self.cfg["lmin"], self.cfg["lmax"], errorOperator=self.ec, tol=-1,
+                  max_evaluations=0, refinement_container=self.sa.refinement, print_output=False)
+        else:
+            quiet(self.sa.continue_adaptive_refinement, tol=-1, max_evaluations=0)
 
     def benefits_seen(self):
         return [[o.benefit for o in c.get_objects()] for c in self.containers()]
@@ -318,6 +324,8 @@ def gen_config(ctx, thorough, want_c03, family=None):
     cfg["manual"] = [r.random() < 0.35 for _ in range(steps)]
     cfg["recall"] = [r.random() < 0.5 for _ in range(steps)]
     cfg["perm_seed"] = r.randint(0, 10 ** 6)
+    # "resume" evaluations: the evaluation before step k goes through performSpatiallyAdaptiv(refinement_container=old)
+    cfg["resume"] = [r.random() < 0.3 for _ in range(steps + 1)]
     if family == "deepen":
         # small directed histories: rotations and raises of lmax by more than one level in the same step
         cfg.update(dim=2, lmin=1, lmax=r.choice([2, 2, 3]), a=["0", str(cfg["a"][1])], b=["1", str(cfg["b"][1])],
@@ -327,6 +335,7 @@ def gen_config(ctx, thorough, want_c03, family=None):
         cfg["observe"] = [r.random() < 0.3 for _ in range(cfg["steps"])]
         cfg["manual"] = [r.random() < 0.25 for _ in range(cfg["steps"])]
         cfg["recall"] = [False] * cfg["steps"]
+        cfg["resume"] = [r.random() < 0.3 for _ in range(cfg["steps"] + 1)]
     return cfg
 
 
@@ -337,7 +346,9 @@ def gen_benefits(ctx, cfg, sizes, step_no, cap, levels=None):
     margin = Fraction(eff_margin(cfg))
     if cfg.get("family") == "deepen" and levels is not None:
         return gen_deepen(ctx, cfg, sizes, levels, cap)
-    kind = r.choice(["single", "single", "few", "few", "ties", "threshold", "zeros", "dim-only", "many"])
+    kind = r.choice(["single", "single", "few", "few", "ties", "threshold", "zeros", "dim-only", "many", "near", "near"])
+    if kind == "near" and (margin <= 0 or sum(sizes) < 4):
+        kind = "few"
     total = sum(sizes)
     room = min(cap - s for s in sizes)
     if room <= 2:
@@ -359,6 +370,8 @@ def gen_benefits(ctx, cfg, sizes, step_no, cap, levels=None):
     if kind == "zeros":
         return bens, kind
     fill_low()
+    if kind == "near":
+        return gen_near(ctx, cfg, sizes, bens, top, room), kind
     if margin == 0:
         # every interval has benefit >= 0 * max and must be split whatever the (varied, non-zero) benefits are
         for d in range(len(sizes)):
@@ -466,6 +479,51 @@ def gen_deepen(ctx, cfg, sizes, levels, cap):
         d1 = (d0 + 1) % len(sizes)
         bens[d1][r.randrange(sizes[d1])] = Fraction(1)
     return bens, "deepen"
+
+
+def gen_near(ctx, cfg, sizes, bens, top, room):
+    """benefits within a few ulps / 1e-10 relative of the tolerance `max * margin` on either side.  All values are
+    doubles (exact Fractions); they are placed strictly outside the interval between the exact product and the float
+    product of the code, so the exact-rational model and the float comparison agree on which side they are."""
+    r = ctx.rng
+    mf = eff_margin(cfg)
+    tol_float = Fraction(float(top) * mf)
+    tol_exact = top * Fraction(mf)
+    lo, hi = min(tol_float, tol_exact), max(tol_float, tol_exact)
+
+    def below(x, k):
+        v = float(x)
+        while Fraction(v) >= lo:
+            v = math.nextafter(v, -math.inf)
+        for _ in range(k):
+            v = math.nextafter(v, -math.inf)
+        return Fraction(v)
+
+    def above(x, k):
+        v = float(x)
+        while Fraction(v) < hi:
+            v = math.nextafter(v, math.inf)
+        for _ in range(k):
+            v = math.nextafter(v, math.inf)
+        return Fraction(v)
+    cands = [("below", below(lo, 0)), ("below", below(lo, r.randint(1, 4))), ("below", below(lo * (1 - Fraction(1, 2 ** 32)), 0)),
+             ("below", below(lo * (1 - Fraction(1, 10 ** 10)), 0)), ("below", below(lo * (1 - Fraction(1, 10 ** 8)), 0)),
+             ("above", above(hi, 0)), ("above", above(hi, r.randint(1, 3))), ("above", above(hi * (1 + Fraction(1, 10 ** 10)), 0))]
+    cands = [(w, v) for w, v in cands if 0 <= v <= top]
+    cells = [(d, i) for d in range(len(sizes)) for i in range(sizes[d])]
+    r.shuffle(cells)
+    d0, i0 = cells[0]
+    bens[d0][i0] = top                      # the maximum benefit
+    n_above = 0
+    for (d, i) in cells[1:1 + r.randint(2, 5)]:
+        w, v = r.choice(cands)
+        if w == "above":
+            if n_above + 2 > room:
+                continue
+            n_above += 1
+        bens[d][i] = v
+        ctx.count("near_threshold_" + w)
+    return bens
 
 
 def selection_spec(bens, margin_float):
@@ -649,14 +707,23 @@ class History:
                 break
             table = bens if bens is not None else [[Fraction(0)] * n for n in sizes]
             impl.set_benefits(table)
+            resume = bool((list(cfg.get("resume", [])) + [False] * (k + 1))[k])
             try:
-                impl.evaluate()
+                impl.evaluate(resume=resume)
             except Exception as e:
-                self.viol("evaluate-exception", {"exception": repr(e)[:300], "step": k}, {"exception": type(e).__name__})
+                self.viol("evaluate-exception", {"exception": repr(e)[:300], "step": k, "resume": resume},
+                          {"exception": type(e).__name__})
                 break
             if self.model_on:
                 self.corr("eval", "ok", drv.ask("eval"))
                 self.corr("cursors@evaluated-%d" % k, impl.cursors_str(), drv.ask("cursors"))
+            if resume:
+                # resumed through the old container: every state clause is observed BEFORE the next refine()
+                ctx.count("resumed_evaluations")
+                self.compare_state(impl, "@resumed-%d" % k)
+                self.oracle_state(impl)
+                if self.violated:
+                    break
             if final:
                 self.points_checks(impl, "@end")
         return self.ok
